@@ -85,6 +85,29 @@ func init() {
 							New: func() Exec { return &c14Exec{DrvRun: d.New(), full: full, name: name} }})
 					}
 				}
+				// errors that wrap a cancellation / deadline of something else (the call's own context is alive)
+				for _, fl := range []string{"canceled-wrapped", "deadline-wrapped"} {
+					dw := NewDrv(op, doc)
+					dw.WriterFailAt, dw.ErrFlavour = 1, fl
+					nm := fmt.Sprintf("c14/doc%d/%s/writer@1/%s", di, op, fl)
+					out = append(out, &Scenario{Name: nm, Prop: "C14", Workers: w2, Bound: k, Policies: pols,
+						New: func() Exec { return &c14Exec{DrvRun: dw.New(), full: full, name: nm} }})
+					dr := NewDrv(op, doc)
+					dr.ReaderFailAfter, dr.ErrFlavour = len(doc)/2+1, fl
+					pdoc := doc[:len(doc)/2+1]
+					pd := NewDrv(op, pdoc)
+					pd.Simple, pd.NoYield = true, true
+					pr := pd.New()
+					func() {
+						defer func() { recover() }()
+						pr.Body()
+					}()
+					pr.Finish()
+					rej := pr.Err != nil
+					nr := fmt.Sprintf("c14/doc%d/%s/reader@mid/%s", di, op, fl)
+					out = append(out, &Scenario{Name: nr, Prop: "C14", Workers: w2, Bound: k, Policies: pols,
+						New: func() Exec { return &c14Exec{DrvRun: dr.New(), full: full, prefixRejected: rej, name: nr} }})
+				}
 				if op == "out-yaml" {
 					continue
 				}
